@@ -200,16 +200,19 @@ def convert_fresh(ipath, opath, argv=(), hashseed='0', timeout=300):
     return res
 
 
-def convert_path(ipath, opath, argv=()):
+def convert_path(ipath, opath, argv=(), default_output=False):
     """In-process conversion of an existing input file (used by C18, which
-    watches the input file and its directory)."""
+    watches the input file and its directory).  With ``default_output`` no
+    -o is given and ``opath`` is where the converter is expected to write."""
     mods = load_repo()
     t4main = mods['main']
     res = Result()
     buf = io.StringIO()
     old_argv = sys.argv
     try:
-        full_argv = list(argv) + [ipath, '-o', opath]
+        full_argv = list(argv) + [ipath]
+        if not default_output:
+            full_argv += ['-o', opath]
         sys.argv = ['t4_geom_convert'] + full_argv
         with warnings.catch_warnings(record=True):
             warnings.simplefilter('always')
